@@ -85,9 +85,32 @@ pub struct Decider {
     /// number of decisions taken
     pub count: u64,
     pub record_sites: bool,
+    /// > 0: values handed to the code under test as randomness (`draw_rng`) are *sticky*: seven
+    /// times in eight one of the last `sticky` values is handed out again. Every finite sequence
+    /// of draws is a legal execution of a random algorithm; streaks of equal draws are the ones a
+    /// uniform source practically never produces and rejection loops, duplicate checks and
+    /// tie-breaks only meet there.
+    pub sticky: u8,
+    recent: Vec<u64>,
 }
 
 impl Decider {
+    /// Randomness for the code under test (ambient RNG seam, caller-supplied `impl Rng`).
+    pub fn draw_rng(&mut self, site: &str) -> u64 {
+        if self.sticky > 0 && !self.recent.is_empty() && self.choose("rng.sticky", 8) != 0 {
+            let i = self.choose("rng.sticky.which", self.recent.len());
+            return self.recent[i];
+        }
+        let v = self.draw64(site);
+        if self.sticky > 0 {
+            if self.recent.len() >= self.sticky as usize {
+                self.recent.remove(0);
+            }
+            self.recent.push(v);
+        }
+        v
+    }
+
     pub fn seeded(seed: u64) -> Self {
         Decider {
             mode: Mode::Seeded,
@@ -96,6 +119,8 @@ impl Decider {
             digest: 0x1234_5678_9abc_def0,
             count: 0,
             record_sites: true,
+            sticky: 0,
+            recent: Vec::new(),
         }
     }
 
@@ -111,6 +136,8 @@ impl Decider {
             digest: 0x1234_5678_9abc_def0,
             count: 0,
             record_sites: true,
+            sticky: 0,
+            recent: Vec::new(),
         }
     }
 
@@ -217,7 +244,7 @@ impl rand::RngCore for DeciderRng<'_> {
         if self.draws > self.limit {
             panic!("{}", DRAW_LIMIT_MARKER);
         }
-        self.d.draw64(self.site)
+        self.d.draw_rng(self.site)
     }
     fn fill_bytes(&mut self, dst: &mut [u8]) {
         for chunk in dst.chunks_mut(8) {
